@@ -366,11 +366,15 @@ fn mut_to(m: &Mutation) -> Value {
         Mutation::FixChecksum => json!("recompute_checksum"),
         Mutation::Downgrade { v } => json!({"downgrade_to_version": v}),
         Mutation::TrailerFrom { kind } => json!({"trailer_from_body": kind.name()}),
+        Mutation::PadTo { len } => json!({"pad_to_length": len.to_string()}),
     }
 }
 fn mut_from(v: &Value) -> R<Mutation> {
     if v.as_str() == Some("recompute_checksum") {
         return Ok(Mutation::FixChecksum);
+    }
+    if let Some(x) = v.get("pad_to_length") {
+        return Ok(Mutation::PadTo { len: x.as_str().and_then(|s| s.parse().ok()).ok_or("pad_to_length")? });
     }
     if let Some(x) = v.get("trailer_from_body") {
         let kind = crate::restart::TrailerKind::from_name(x.as_str().unwrap_or("")).ok_or("trailer kind")?;
